@@ -48,7 +48,26 @@ def _combo(draw, src, extra_slack):
 
 
 @st.composite
+def _ill_scaled(draw):
+    """two or three badly scaled rows (coefficients of 1e4..1e6 next to ~1), no context: the family on which the LP solver's presolve
+    misreports the status of the bounded redundancy test; none of the rows is redundant"""
+    sg = lambda: draw(st.sampled_from([1, -1]))  # noqa: E731
+    r1 = {"E1": sg() * draw(st.sampled_from([1.778, 2.5, 0.5, 3.0, 1.0])), "a": sg() * draw(st.sampled_from([1e5, 2e5, 1e4, 1e6]))}
+    r2 = {"E1": sg() * draw(st.sampled_from([1e5, 1e4, 1e6])), "a": sg() * draw(st.sampled_from([1.0, 2.0, 0.5]))}
+    k = draw(st.sampled_from([10.0, 1.0, 5.0, 0.0]))
+    if k:
+        r2["b"] = k
+    cs = [draw(st.sampled_from([0.05, 0.5, 1.0, 0.0])) for _ in range(2)]
+    terms = [[r1, cs[0]], [r2, cs[1]]]
+    if draw(st.booleans()):
+        terms.append([{"c": 1.0, "b": 1.0}, 10.0])
+    return {"kind": "tl", "terms": terms, "ctx": None, "planted": ["ill-scaled"], "numclass": "wide"}
+
+
+@st.composite
 def _tl_case(draw):
+    if draw(st.integers(0, 7)) == 0:
+        return draw(_ill_scaled())
     nv = draw(st.integers(1, 5))
     pool = P[:nv]
     numclass = draw(st.sampled_from(["small", "small", "small", "decimal", "wide"]))
